@@ -7,43 +7,31 @@
    total and unsent sizes match the files on disk, and a file whose seconds were all erased is deleted once the cache
    no longer writes to it."
 
-  Model: SH.Model.DiskCache (disk_cache.go, branch for branch; crc32c is the parameter `Cfg.crc`).
+  Model: SH.Model.DiskCache (disk_cache.go, branch for branch; crc32c is the parameter `Cfg.crc`, assumed < 2^32).
 
-  What is proved here (all ∀ record lists / ∀ byte prefixes / ∀ tear offsets / ∀ states, no bounds):
-   * `parseHdr_enc`, `readHdr_at`      the little-endian header written by writeSecond is read back field for field
-   * `look_at_rec`                     one loop iteration of ReadNextTailSecond at a record boundary: erased ⇒ skipped,
-                                       good ⇒ handed out with exactly the written time/size/crc, cursor on the next boundary
-   * `reread_after_restart_partial`    a file that is a sequence of records (what put/erase leave, see `erase_encAll`) is
-                                       scanned to exactly its non-erased records, in write order, with their positions
-   * `torn_tail_partial`               the same file with its last record cut at ANY byte offset scans to exactly the records
-                                       before it — only the torn second is missing, nothing spurious is returned
-   * `erase_bytes`, `erase_encAll`     eraseBucket turns exactly one record into an erased one, every other byte untouched
-   * `get_ok_checked`                  GetBucket returns bytes only for a known id, the right time, the recorded length and
-                                       matching crc ("never corrupted", reduced to the crc as DESIGN §4.7 prescribes)
-   * `readLoop_head`                   the stateful model loop (`readLoop`, with ref counts, cursor, bookkeeping) hands out
-                                       the FIRST element of the pure `scan`, registers a bucket with that record's position /
-                                       size / crc and leaves the cursor behind it (so iterating it follows `scan`)
-   * `torn_erase_magic`, `torn_erase3_stops`, `torn_erase3_loses_later_second` (defect of the unchanged code: an erase torn
-     after its 3rd byte makes the reader drop every later second of that file), `torn_erase3_skipped_when_fixed`,
-     `torn_erase3_fixed_keeps_later_second` (behaviour with the proposed fix, /verif/fixes/C09-torn-erase.diff)
-   * `restart_accounting`              right after a restart total = unsent = sum of the file sizes on disk
+  HISTORY LEVEL (this file; all for EVERY `ops : List Op` of put/get/erase/readNext/restart started on an empty directory,
+  any number of files and rotations, puts with 32-bit time and body ≤ maxChunkSize):
+   * `history_refines`        the reached model state satisfies the refinement invariant `Inv` (SH.Lemmas.DiskCacheInv: every
+                              file = encoding of a record list, known buckets ↔ records with ids, ref counts = known seconds +
+                              read head + write head, cursors on record boundaries, total/knownSize/waitingSize) and its live
+                              sequence is `spec ops` — put appends, erase removes that id, nothing else changes membership
+   * `reread_after_restart`   restart + drain returns exactly those seconds, in write order, GetBucket returns identical bytes;
+                              `readFuel` always suffices (`mu_le_readFuel`, `readNext_spec`)
+   * `torn_tail`              the last put torn at ANY byte: the result equals that of the history without the put
+   * `erased_never_returned`  GetBucket / ReadNextTailSecond only ever return live (put, not erased) seconds
+   * `size_accounting`        total = Σ file sizes on disk; knownSize / waitingSize / unsent formula
+   * `file_removed`           a file is on disk only while a known second, the read head, the write head or the waiting list
+                              refers to it; every open file object has a positive ref count
+  The step lemmas are in SH/Lemmas/DiskCache{Abs,Inv,Read,Read2,Read3,Loop,Drain,Get,Erase,Erase2,Erase3,Drop,Rotate,NewFile,
+  Append,Run,GetLive,Sizes,Torn}.lean; the byte-level theorems of the first round (`reread_after_restart_partial`,
+  `torn_tail_partial`, `erase_encAll`, `get_ok_checked`, `readLoop_head`, the torn-erase facts …) are unchanged in
+  SH/Lemmas/DiskCacheBytes.lean and still audited.
 
-  PARTIAL — the history-level statements of DESIGN Appendix A are NOT proved in Lean; they are kept here as the target:
-
-    theorem reread_after_restart (h : List Op) :
-        drain (restart (run h)) = (puts h).filter (fun p => p.id ∉ erased h)          -- order = write order, bytes equal
-    theorem torn_tail (h : List Op) (p : Put) (cut : Nat) (hc : cut < (enc p).length) :
-        drain (restart (tear (run (h ++ [.put p])) cut)) = drain (restart (run h))
-    theorem size_accounting (h : List Op) : (run h).total = sumSizes (run h).disk ∧ unsent formula
-    theorem file_removed (h : List Op) : a file is on disk ⇔ it has a live bucket ∨ it is the read head ∨ the write head
-
-  What is missing for them: the refinement invariant "every file on disk is `encAll` of a record list and every known
-  bucket points at a non-erased record of it" carried through `put`/`erase`/`get`/`readNext`/`restart` by induction over
-  the op list (the per-op facts it needs are the theorems above), and fuel-sufficiency of `readFuel`. Until then the
-  history level (several files, rotation, ref counts, total/unsent, file removal) is covered by the op-by-op white-box
-  correspondence of the model with the real code and by the direct op-log oracle of the harness, not by a theorem.
+  STILL PARTIAL: the torn-ERASE analogue at history level (erase torn after 0..4 bytes never loses another second, for the
+  fixed reader) is proved only per loop iteration (`torn_erase_magic`, `torn_erase3_skipped_when_fixed`, `look_boundary` for
+  records with the torn magic), not yet lifted to histories; I/O error branches, crc strength and fs assumptions as before.
 -/
-import SH.Model.DiskCache
+import SH.Lemmas.DiskCacheTorn
 import SH.Gen.C09
 
 namespace SH.C09
@@ -55,474 +43,162 @@ theorem gen_constants_match :
     Gen.C09.headerSize = headerSize ∧ Gen.C09.fileRotateSize = fileRotateSize ∧
     Gen.C09.maxChunkSize = maxChunkSize := by decide
 
-theorem le_length (k n : Nat) : (le k n).length = k := by
-  induction k generalizing n with
-  | zero => rfl
-  | succ k ih => simp [le, ih]
 
-theorem unle_le (k n : Nat) (h : n < 256 ^ k) : unle (le k n) = n := by
-  induction k generalizing n with
-  | zero => simp at h; subst h; rfl
-  | succ k ih =>
-    have h2 : n / 256 < 256 ^ k := by
-      rw [Nat.pow_succ] at h
-      exact Nat.div_lt_of_lt_mul (by rw [Nat.mul_comm]; exact h)
-    simp only [le, unle, ih _ h2]
-    have : (UInt8.ofNat (n % 256)).toNat = n % 256 := by
-      simp
-    rw [this]; omega
+/-! ## History level (second round): every `List Op`, several files, rotation, ref counts -/
 
-theorem unle_take_append (k n : Nat) (rest : Bytes) (h : n < 256 ^ k) : unle ((le k n ++ rest).take k) = n := by
-  have : (le k n ++ rest).take k = le k n := by
-    rw [List.take_append_of_le_length (by simp [le_length])]
-    rw [List.take_of_length_le (by simp [le_length])]
-  rw [this, unle_le k n h]
+/-- the model state after a history started on an empty directory, and the history-level specification of what it holds -/
+def reach (cfg : Cfg) (ops : List Op) : Shard := run cfg {} ops
+def spec (ops : List Op) : AbsH := absRun {} ops
 
+instance (op : Op) : Decidable (OpOk op) := by cases op <;> simp only [OpOk] <;> infer_instance
 
-theorem drop_le_append (k n : Nat) (rest : Bytes) : (le k n ++ rest).drop k = rest := by
-  have := le_length k n
-  exact List.drop_left' this
+/-- `history_refines`: for EVERY history the reached model state satisfies the refinement invariant `Inv` (layout of every
+    file as records, known buckets ↔ records with ids, ref counts, cursors, sizes) and its live sequence — the seconds on
+    disk that are not erased, in write order, with the ids currently handed out — is exactly `spec ops`. -/
+theorem history_refines (cfg : Cfg) (hcrc : ∀ b, cfg.crc b < 2 ^ 32) (ops : List Op) (hok : ∀ op ∈ ops, OpOk op) :
+    ∃ a, Inv cfg (reach cfg ops) a ∧ a.live cfg = (spec ops).live ∧ a.lastID = (spec ops).lastID := by
+  obtain ⟨a, inv, h⟩ := run_refines cfg hcrc ops {} {} (inv_init cfg) hok
+  have h0 : (⟨Abs.live cfg {}, ({} : Abs).lastID⟩ : AbsH) = {} := rfl
+  rw [h0] at h
+  exact ⟨a, inv, congrArg AbsH.live h, congrArg AbsH.lastID h⟩
 
-theorem encHeader_length (m t sz c : Nat) : (encHeader m t sz c).length = 20 := by
-  simp [encHeader, le_length]
+/-- C09 `reread_after_restart` (full strength, history level): after ANY history of put/get/erase/readNext/restart over any
+    number of files and rotations, a restart followed by draining ReadNextTailSecond returns exactly the seconds that were
+    put and not erased (`spec ops`), in write order (`outs 0 L` = their times with ids 1,2,…), never runs out of fuel, and
+    GetBucket then returns the identical bytes for every one of them. -/
+theorem reread_after_restart (cfg : Cfg) (hcrc : ∀ b, cfg.crc b < 2 ^ 32) (ops : List Op) (hok : ∀ op ∈ ops, OpOk op) :
+    (drain cfg ((spec ops).live.length + 1) (restart (reach cfg ops))).2 = outs 0 (clearLive (spec ops).live) ∧
+    ∀ k t d, (some k, t, d) ∈ stamp 0 (clearLive (spec ops).live) →
+      DiskCache.get cfg (drain cfg ((spec ops).live.length + 1) (restart (reach cfg ops))).1 k t =
+        ((drain cfg ((spec ops).live.length + 1) (restart (reach cfg ops))).1, .ok d) := by
+  obtain ⟨a, inv, hl, _⟩ := history_refines cfg hcrc ops hok
+  obtain ⟨a', inv', hl', hi'⟩ := inv_restart cfg _ a inv
+  rw [hl] at hl'
+  have hnone : ∀ e ∈ a'.live cfg, e.1 = none := by
+    intro e he; rw [hl'] at he
+    simp only [clearLive, List.mem_map] at he
+    obtain ⟨_, _, rfl⟩ := he; rfl
+  have hlen : (a'.live cfg).length < (spec ops).live.length + 1 := by rw [hl']; simp [clearLive]
+  obtain ⟨h1, a'', inv'', h2, _⟩ := drain_spec cfg (a'.live cfg) [] _ _ a' inv' (by simp) (by simp) hnone hlen
+  rw [hi', hl'] at h1 h2
+  refine ⟨h1, ?_⟩
+  intro k t d hmem
+  exact get_live cfg _ a'' inv'' k t d (by rw [h2]; simpa using hmem)
 
-theorem parseHdr_enc (m t sz c : Nat)
-    (hm : m < 2 ^ 32) (ht : t < 2 ^ 32) (hs : sz < 2 ^ 64) (hc : c < 2 ^ 32) :
-    parseHdr (encHeader m t sz c) = some ⟨m, t, sz, c⟩ := by
-  have p32 : (2:Nat) ^ 32 = 256 ^ 4 := by decide
-  have p64 : (2:Nat) ^ 64 = 256 ^ 8 := by decide
-  rw [p32] at hm ht hc; rw [p64] at hs
-  unfold parseHdr
-  rw [if_neg (by simp [encHeader_length, headerSize])]
-  have d4 : (encHeader m t sz c).drop 4 = le 4 t ++ (le 8 sz ++ le 4 c) := drop_le_append 4 m _
-  have d8 : (encHeader m t sz c).drop 8 = le 8 sz ++ le 4 c := by
-    rw [show (8:Nat) = 4 + 4 from rfl, ← List.drop_drop, d4, drop_le_append]
-  have d16 : (encHeader m t sz c).drop 16 = le 4 c := by
-    rw [show (16:Nat) = 8 + 8 from rfl, ← List.drop_drop, d8, drop_le_append]
-  rw [d4, d8, d16]
-  have e0 : unle ((encHeader m t sz c).take 4) = m := unle_take_append 4 m _ hm
-  have e3 : unle ((le 4 c).take 4) = c := by
-    have := unle_take_append 4 c [] hc
-    simpa using this
-  rw [e0, unle_take_append 4 t _ ht, unle_take_append 8 sz _ hs, e3]
+/-- C09 `torn_tail` (full strength, history level): for EVERY history and EVERY cut — the crash tears the last put `n` bytes
+    before its end, 1 ≤ n ≤ header+body, i.e. at any byte offset of the final write — restart + drain returns exactly the
+    seconds of the history without that put: only the torn second is missing, nothing else, nothing spurious. -/
+theorem torn_tail (cfg : Cfg) (hcrc : ∀ b, cfg.crc b < 2 ^ 32) (ops : List Op) (hok : ∀ op ∈ ops, OpOk op)
+    (t : Nat) (d : Bytes) (r : Bool) (hput : OpOk (.put t d r)) (n : Nat) (hn0 : 0 < n) (hn : n ≤ headerSize + d.length) :
+    (drain cfg ((spec ops).live.length + 1) (restart (tearNewest (reach cfg (ops ++ [.put t d r])) n))).2 =
+      (drain cfg ((spec ops).live.length + 1) (restart (reach cfg ops))).2 := by
+  rw [(reread_after_restart cfg hcrc ops hok).1]
+  exact torn_tail_history cfg hcrc ops hok t d r hput n hn0 hn
 
-theorem readHdr_at (pre rest : Bytes) (m t sz c : Nat)
-    (hm : m < 2 ^ 32) (ht : t < 2 ^ 32) (hs : sz < 2 ^ 64) (hc : c < 2 ^ 32) :
-    readHdr (pre ++ (encHeader m t sz c ++ rest)) pre.length = some ⟨m, t, sz, c⟩ := by
-  have e1 : ((pre ++ (encHeader m t sz c ++ rest)).drop pre.length).take headerSize = encHeader m t sz c := by
-    rw [List.drop_left]
-    rw [List.take_append_of_le_length (by simp [encHeader_length, headerSize])]
-    rw [List.take_of_length_le (by simp [encHeader_length, headerSize])]
-  unfold readHdr
-  rw [e1, parseHdr_enc m t sz c hm ht hs hc]
+example : OpOk (.put 17 [9] false) ∧ 0 < 5 ∧ 5 ≤ headerSize + [9].length := by decide
 
+/-- C09 `erased_never_returned` (every history): whatever GetBucket returns in any reachable state is a second of the live
+    sequence with that id and time (so it was put and not erased, and the bytes are the bytes put); whatever
+    ReadNextTailSecond hands out is a live second not handed out before; and an erase removes its id from the live sequence. -/
+theorem erased_never_returned (cfg : Cfg) (hcrc : ∀ b, cfg.crc b < 2 ^ 32) (ops : List Op) (hok : ∀ op ∈ ops, OpOk op) :
+    (∀ k t d s', DiskCache.get cfg (reach cfg ops) k t = (s', .ok d) → (some k, t, d) ∈ (spec ops).live) ∧
+    (∀ t id, (readNext cfg (reach cfg ops)).2 = .got t id → ∃ d, (none, t, d) ∈ (spec ops).live) ∧
+    (readNext cfg (reach cfg ops)).2 ≠ .fuel ∧
+    (∀ id t d, (some id, t, d) ∉ (spec (ops ++ [.erase id])).live) := by
+  obtain ⟨a, inv, hl, _⟩ := history_refines cfg hcrc ops hok
+  refine ⟨?_, ?_, ?_, ?_⟩
+  · intro k t d s' h
+    rw [← hl]; exact get_ok_live cfg _ s' a inv k t d h
+  · intro t id h
+    obtain ⟨hp, _⟩ := readNext_spec cfg _ a inv
+    rw [h] at hp
+    obtain ⟨_, l1, b, l2, _, _, _, hsplit, _, _⟩ := hp
+    exact ⟨b, by rw [← hl, hsplit]; simp⟩
+  · exact (readNext_spec cfg _ a inv).2
+  · intro id t d hmem
+    simp only [spec, absRun, List.foldl_append, List.foldl_cons, List.foldl_nil, absStep, liveErase, List.mem_filter] at hmem
+    simp at hmem
 
-/-! ### records on disk -/
+/-- C09 `size_accounting` (every history): TotalFileSize's total is the sum of the file sizes on disk; the unsent parts are
+    the header+body bytes of the live seconds that currently have an id, plus the sizes of the files not yet opened (each
+    equal to the length of that file on disk); `unsent` is their sum with the unread rest of the reading file, capped by total. -/
+theorem size_accounting (cfg : Cfg) (hcrc : ∀ b, cfg.crc b < 2 ^ 32) (ops : List Op) (hok : ∀ op ∈ ops, OpOk op) :
+    (reach cfg ops).total = sumSizes (reach cfg ops).disk ∧
+    (reach cfg ops).knownSize = knownBytes (spec ops).live ∧
+    (reach cfg ops).waitingSize = (((reach cfg ops).waiting.map (fun w => (w.size : Int))).sum) ∧
+    (∀ w ∈ (reach cfg ops).waiting, w.size = (DiskCache.fileBytes (reach cfg ops).disk w.name).length) ∧
+    unsent (reach cfg ops) = min ((reach cfg ops).knownSize + (reach cfg ops).waitingSize + readingRest (reach cfg ops)) (reach cfg ops).total := by
+  obtain ⟨a, inv, hl, _⟩ := history_refines cfg hcrc ops hok
+  refine ⟨?_, ?_, ?_, ?_, ?_⟩
+  · rw [inv.total, inv.disk, sumSizes_render]
+  · rw [inv.knownSize_live, hl]
+  · rw [inv.waitingSize, inv.waiting]; simp [sizeSum, List.map_map, Function.comp_def]
+  · intro w hw
+    rw [inv.waiting] at hw
+    obtain ⟨f, hf, rfl⟩ := List.mem_map.mp hw
+    have hff : f ∈ a.files := by simp [Abs.files, hf]
+    simp only
+    rw [inv.fileBytes hff]; rfl
+  · unfold unsent
+    simp only
+    split <;> omega
 
-structure Rec where
-  deleted : Bool
-  time : Nat
-  body : Bytes
-deriving DecidableEq, Repr
-
-def Rec.magic (r : Rec) : Nat := if r.deleted then magicDeleted else magicGood
-def hdrOf (cfg : Cfg) (r : Rec) : Hdr := ⟨r.magic, r.time, r.body.length, cfg.crc r.body⟩
-def encRec (cfg : Cfg) (r : Rec) : Bytes := encHeader r.magic r.time r.body.length (cfg.crc r.body) ++ r.body
-def encAll (cfg : Cfg) : List Rec → Bytes
-  | [] => []
-  | r :: rs => encRec cfg r ++ encAll cfg rs
-def RecWF (cfg : Cfg) (r : Rec) : Prop := r.time < 2 ^ 32 ∧ r.body.length ≤ maxChunkSize ∧ cfg.crc r.body < 2 ^ 32
-
-instance (cfg : Cfg) (r : Rec) : Decidable (RecWF cfg r) := by unfold RecWF; infer_instance
-
-theorem encRec_length (cfg : Cfg) (r : Rec) : (encRec cfg r).length = headerSize + r.body.length := by
-  simp [encRec, encHeader_length, headerSize]
-
-theorem magic_lt (r : Rec) : r.magic < 2 ^ 32 := by
-  unfold Rec.magic; split <;> decide
-
-theorem isDeleted_good (cfg : Cfg) : isDeletedMagic cfg magicGood = false := by
-  unfold isDeletedMagic; cases cfg.tornEraseOk <;> decide
-
-theorem isDeleted_deleted (cfg : Cfg) : isDeletedMagic cfg magicDeleted = true := by
-  unfold isDeletedMagic; cases cfg.tornEraseOk <;> decide
-
-/-- one loop iteration at a record boundary: a deleted record is skipped, a good one is returned with exactly
-    the header fields that were written, and the cursor lands on the next boundary -/
-theorem look_at_rec (cfg : Cfg) (pre rest : Bytes) (r : Rec) (size : Nat) (hw : RecWF cfg r)
-    (hsz : pre.length + (headerSize + r.body.length) ≤ size) :
-    look cfg (pre ++ (encRec cfg r ++ rest)) size pre.length =
-      if r.deleted then .skip (pre.length + headerSize + r.body.length)
-      else .good (hdrOf cfg r) (pre.length + headerSize + r.body.length) := by
-  obtain ⟨ht, hb, hc⟩ := hw
-  have hs64 : r.body.length < 2 ^ 64 := by
-    have : maxChunkSize < 2 ^ 64 := by decide
-    omega
-  unfold look
-  have e : pre ++ (encRec cfg r ++ rest) = pre ++ (encHeader r.magic r.time r.body.length (cfg.crc r.body) ++ (r.body ++ rest)) := by
-    simp [encRec]
-  rw [e, readHdr_at pre _ _ _ _ _ (magic_lt r) ht hs64 hc]
-  have hbad : badChunk ⟨r.magic, r.time, r.body.length, cfg.crc r.body⟩ size pre.length = false := by
-    simp [badChunk]; omega
-  simp only [hbad]
-  cases hd : r.deleted
-  · simp [Rec.magic, hd, isDeleted_good, hdrOf]
-  · simp [Rec.magic, hd, isDeleted_deleted]
-
-/-- a strict, non-empty prefix of a record at the end of the file stops the scan (short header or chunk beyond the file) -/
-theorem look_torn (cfg : Cfg) (pre : Bytes) (r : Rec) (k : Nat) (hw : RecWF cfg r)
-    (hk : k < headerSize + r.body.length) :
-    look cfg (pre ++ (encRec cfg r).take k) (pre ++ (encRec cfg r).take k).length pre.length = .stop := by
-  obtain ⟨ht, hb, hc⟩ := hw
-  have hs64 : r.body.length < 2 ^ 64 := by
-    have : maxChunkSize < 2 ^ 64 := by decide
-    omega
-  unfold look
-  by_cases h20 : k < headerSize
-  · have : readHdr (pre ++ (encRec cfg r).take k) pre.length = none := by
-      unfold readHdr parseHdr
-      rw [List.drop_left]
-      have : ((encRec cfg r).take k).length < headerSize := by
-        simp [List.length_take]; omega
-      rw [if_pos (by simp [List.length_take] at this ⊢; omega)]
-    rw [this]
-  · have hk20 : headerSize ≤ k := by omega
-    have e : (encRec cfg r).take k = encHeader r.magic r.time r.body.length (cfg.crc r.body) ++ r.body.take (k - headerSize) := by
-      unfold encRec
-      rw [List.take_append, encHeader_length]
-      rw [List.take_of_length_le (by simp [encHeader_length, headerSize] at hk20 ⊢; omega)]
-      rfl
-    rw [e, readHdr_at pre _ _ _ _ _ (magic_lt r) ht hs64 hc]
-    have hbad : badChunk ⟨r.magic, r.time, r.body.length, cfg.crc r.body⟩
-        (pre ++ (encHeader r.magic r.time r.body.length (cfg.crc r.body) ++ r.body.take (k - headerSize))).length pre.length = true := by
-      simp [badChunk, encHeader_length, List.length_take, headerSize] at hk hk20 ⊢
-      omega
-    simp only [hbad, if_true]
-
-
-/-- the decisions of the `ReadNextTailSecond` loop on one file, as a pure function: positions and headers of the
-    seconds it hands out, from `pos` on (`fuel` = loop iterations) -/
-def scan (cfg : Cfg) : Nat → Bytes → Nat → Nat → List (Nat × Hdr)
-  | 0, _, _, _ => []
-  | fuel + 1, f, size, pos =>
-    if pos ≥ size then []
-    else match look cfg f size pos with
-      | .stop => []
-      | .skip nx => scan cfg fuel f size nx
-      | .good h nx => (pos, h) :: scan cfg fuel f size nx
-
-/-- what has to come back: the records that are not erased, with their positions, in write order -/
-def goodList (cfg : Cfg) : Nat → List Rec → List (Nat × Hdr)
-  | _, [] => []
-  | off, r :: rs =>
-    (if r.deleted then [] else [(off, hdrOf cfg r)]) ++ goodList cfg (off + headerSize + r.body.length) rs
-
-theorem scan_succ (cfg : Cfg) (fuel : Nat) (f : Bytes) (size pos : Nat) :
-    scan cfg (fuel + 1) f size pos =
-      if pos ≥ size then []
-      else match look cfg f size pos with
-        | .stop => []
-        | .skip nx => scan cfg fuel f size nx
-        | .good h nx => (pos, h) :: scan cfg fuel f size nx := rfl
-
-theorem encAll_length_cons (cfg : Cfg) (r : Rec) (rs : List Rec) :
-    (encAll cfg (r :: rs)).length = headerSize + r.body.length + (encAll cfg rs).length := by
-  simp [encAll, encRec_length]
-
-theorem scan_records (cfg : Cfg) (rs : List Rec) : ∀ (pre tl : Bytes) (e size : Nat),
-    (∀ r ∈ rs, RecWF cfg r) → pre.length + (encAll cfg rs).length ≤ size →
-    scan cfg (rs.length + e) (pre ++ (encAll cfg rs ++ tl)) size pre.length =
-      goodList cfg pre.length rs ++ scan cfg e (pre ++ (encAll cfg rs ++ tl)) size (pre.length + (encAll cfg rs).length) := by
-  induction rs with
-  | nil => intro pre tl e size _ _; simp [goodList, encAll]
-  | cons r rs ih =>
-    intro pre tl e size hw hsz
-    have hr : RecWF cfg r := hw r (by simp)
-    have hrs : ∀ q ∈ rs, RecWF cfg q := fun q hq => hw q (by simp [hq])
-    rw [encAll_length_cons] at hsz
-    have e1 : pre ++ (encAll cfg (r :: rs) ++ tl) = pre ++ (encRec cfg r ++ (encAll cfg rs ++ tl)) := by
-      simp [encAll]
-    have e2 : pre ++ (encAll cfg (r :: rs) ++ tl) = (pre ++ encRec cfg r) ++ (encAll cfg rs ++ tl) := by
-      simp [encAll]
-    have hl : (pre ++ encRec cfg r).length = pre.length + headerSize + r.body.length := by
-      simp [encRec_length]; omega
-    have hlook := look_at_rec cfg pre (encAll cfg rs ++ tl) r size hr (by omega)
-    have ih' := ih (pre ++ encRec cfg r) tl e size hrs (by rw [hl]; omega)
-    rw [hl] at ih'
-    have hfuel : (r :: rs).length + e = (rs.length + e) + 1 := by simp; omega
-    rw [hfuel]
-    rw [scan_succ]
-    rw [if_neg (by simp [headerSize] at hsz ⊢; omega)]
-    rw [e1, hlook, ← e1, e2]
-    cases hd : r.deleted
-    · simp only [Bool.false_eq_true, if_false]
-      rw [ih', goodList, encAll_length_cons]
-      simp [hd, Nat.add_assoc]
-    · simp only [if_true]
-      rw [ih', goodList, encAll_length_cons]
-      simp [hd, Nat.add_assoc]
-
-/-- `scan_records` (C09, "re-reads exactly the seconds that were put and not erased, in write order"): scanning a file that
-    is a sequence of well-formed records hands out exactly the non-erased ones, in order, with the written header fields. -/
-theorem reread_after_restart_partial (cfg : Cfg) (rs : List Rec) (hw : ∀ r ∈ rs, RecWF cfg r) :
-    scan cfg (rs.length + 1) (encAll cfg rs) (encAll cfg rs).length 0 = goodList cfg 0 rs := by
-  have h := scan_records cfg rs [] [] 1 (encAll cfg rs).length hw (by simp)
-  simp only [List.nil_append, List.append_nil, List.length_nil, Nat.zero_add] at h
-  rw [h]
-  simp [scan]
-
-/-- `torn_tail` at byte level (C09, "a crash that tears the last write at any byte … only a second whose write was torn may
-    be missing"): if the last record is cut at ANY byte offset `k` (0 ≤ k < its length) the scan returns exactly what it returns
-    without that record — nothing else is lost, nothing spurious appears. -/
-theorem torn_tail_partial (cfg : Cfg) (rs : List Rec) (r : Rec) (k : Nat) (hw : ∀ q ∈ rs, RecWF cfg q) (hr : RecWF cfg r)
-    (hk : k < headerSize + r.body.length) :
-    scan cfg (rs.length + 1) (encAll cfg rs ++ (encRec cfg r).take k) (encAll cfg rs ++ (encRec cfg r).take k).length 0
-      = goodList cfg 0 rs := by
-  have h := scan_records cfg rs [] ((encRec cfg r).take k) 1 (encAll cfg rs ++ (encRec cfg r).take k).length hw (by simp)
-  simp only [List.nil_append, List.length_nil, Nat.zero_add] at h
-  rw [h]
-  have : scan cfg 1 (encAll cfg rs ++ (encRec cfg r).take k) (encAll cfg rs ++ (encRec cfg r).take k).length (encAll cfg rs).length = [] := by
-    unfold scan
-    by_cases hz : (encAll cfg rs).length ≥ (encAll cfg rs ++ (encRec cfg r).take k).length
-    · rw [if_pos hz]
-    · rw [if_neg hz, look_torn cfg (encAll cfg rs) r k hr hk]
-  rw [this]; simp
-
-
-/-! ### erase = overwrite the magic -/
-
-/-- `eraseBucket` writes 4 bytes at the record's position: the record becomes a deleted record with the same
-    length, every other byte of the file is untouched. -/
-theorem erase_bytes (cfg : Cfg) (pre rest : Bytes) (r : Rec) :
-    writeAt (pre ++ (encRec cfg r ++ rest)) pre.length (le 4 magicDeleted) =
-      pre ++ (encRec cfg { r with deleted := true } ++ rest) := by
-  unfold writeAt
-  have h0 : pre.length - (pre ++ (encRec cfg r ++ rest)).length = 0 := by simp
-  simp only [h0, List.replicate_zero, List.append_nil, le_length]
-  rw [List.take_left, ← List.drop_drop, List.drop_left]
-  have e : (encRec cfg r ++ rest).drop 4 = (le 4 r.time ++ (le 8 r.body.length ++ le 4 (cfg.crc r.body))) ++ r.body ++ rest := by
-    have : encRec cfg r ++ rest = le 4 r.magic ++ ((le 4 r.time ++ (le 8 r.body.length ++ le 4 (cfg.crc r.body))) ++ r.body ++ rest) := by
-      simp [encRec, encHeader]
-    rw [this, drop_le_append]
-  rw [e]
-  simp [encRec, encHeader, Rec.magic]
-
-/-- erasing record `r` inside a file of records yields the file of the same records with `r` marked deleted -/
-theorem erase_encAll (cfg : Cfg) (rs1 rs2 : List Rec) (r : Rec) :
-    writeAt (encAll cfg (rs1 ++ r :: rs2)) (encAll cfg rs1).length (le 4 magicDeleted) =
-      encAll cfg (rs1 ++ { r with deleted := true } :: rs2) := by
-  have app : ∀ (a b : List Rec), encAll cfg (a ++ b) = encAll cfg a ++ encAll cfg b := by
-    intro a b
-    induction a with
-    | nil => simp [encAll]
-    | cons x a ih => simp [encAll, ih]
-  rw [app, app]
-  simp only [encAll]
-  exact erase_bytes cfg (encAll cfg rs1) (encAll cfg rs2) r
-
-/-! ### GetBucket checks time, length and crc -/
-
-/-- C09 "never returns … corrupted data", in the only form that is true (DESIGN §4.7): `GetBucket` hands out bytes `d`
-    only for a known id with the requested time, and only if `d` are the bytes now on disk at the bucket's position,
-    of the recorded length, whose crc equals the crc stored when the second was written / re-read. -/
-theorem get_ok_checked (cfg : Cfg) (s s' : Shard) (id t : Nat) (d : Bytes) (h : DiskCache.get cfg s id t = (s', .ok d)) :
-    ∃ b, findB s.known id = some b ∧ b.time = t ∧ d = readBody (fileBytes s.disk b.file) b ∧
-      d.length = b.size ∧ cfg.crc d = b.crc ∧ s' = s := by
-  unfold DiskCache.get at h
-  split at h
-  · simp at h
-  · rename_i b hb
-    refine ⟨b, hb, ?_⟩
-    split at h
-    · simp at h
-    · rename_i ht
-      dsimp only at h
+/-- C09 `file_removed` (every history): a file is on disk only while something refers to it — a known second lives in it,
+    or it is the read head, the write head, or still waiting to be re-read; every open file object has a positive ref count
+    and its file is on disk; so a file whose seconds were all erased and that is neither read nor written is gone. -/
+theorem file_removed (cfg : Cfg) (hcrc : ∀ b, cfg.crc b < 2 ^ 32) (ops : List Op) (hok : ∀ op ∈ ops, OpOk op) :
+    (∀ d ∈ (reach cfg ops).disk,
+      (∃ b ∈ (reach cfg ops).known, b.file = d.name) ∨ (reach cfg ops).reading = some d.name ∨
+      (reach cfg ops).writing = some d.name ∨ (∃ w ∈ (reach cfg ops).waiting, w.name = d.name)) ∧
+    (∀ name o, findO (reach cfg ops).ofiles name = some o → 0 < o.refCount ∧ ∃ d ∈ (reach cfg ops).disk, d.name = name) := by
+  obtain ⟨a, inv, _, _⟩ := history_refines cfg hcrc ops hok
+  constructor
+  · intro d hd
+    rw [inv.disk] at hd
+    obtain ⟨f, hf, rfl⟩ := List.mem_map.mp hd
+    have hfn : (f.render cfg).name = f.name := rfl
+    rw [hfn]
+    have hcase : f ∈ a.pre ++ a.new ∨ f ∈ a.curL ∨ f ∈ a.wait := by
+      simp only [Abs.files, List.mem_append] at hf ⊢
+      rcases hf with h | h | h | h
+      · exact Or.inl (Or.inl h)
+      · exact Or.inr (Or.inl h)
+      · exact Or.inr (Or.inr h)
+      · exact Or.inl (Or.inr h)
+    rcases hcase with h | h | h
+    · have hp := inv.present f h
+      unfold Abs.refs at hp
+      by_cases hr : a.rname = some f.name
+      · right; left; rw [inv.reading]; exact hr
+      · by_cases hw : a.wname = some f.name
+        · right; right; left; rw [inv.writing]; exact hw
+        · left
+          rw [if_neg hr, if_neg hw] at hp
+          have hpos : 0 < idc f.recs := by omega
+          rw [idc_eq_len cfg f.name 0 f.recs] at hpos
+          obtain ⟨b, hb⟩ := List.exists_mem_of_length_pos hpos
+          obtain ⟨_, _, _, _, _, hbe⟩ := mem_bucketsAt cfg f.name b 0 f.recs hb
+          exact ⟨b, (inv.known b).mpr (List.mem_flatMap.mpr ⟨f, hf, hb⟩), by rw [hbe]⟩
+    · right; left
+      unfold Abs.curL at h
       split at h
+      · rename_i g j hc
+        simp at h; subst h
+        rw [inv.reading]; simp [Abs.rname, hc]
       · simp at h
-      · rename_i hl
-        split at h
-        · simp at h
-        · rename_i hc
-          simp only [Prod.mk.injEq, GetRes.ok.injEq] at h
-          obtain ⟨h1, h2⟩ := h
-          subst h2
-          refine ⟨by simpa using ht, rfl, ?_, by simpa using hc, h1.symm⟩
-          have : (readBody (fileBytes s.disk b.file) b).length ≤ b.size := by
-            simp [readBody, List.length_take]; omega
-          omega
+    · right; right; right
+      exact ⟨⟨f.name, f.size cfg⟩, by rw [inv.waiting]; exact List.mem_map.mpr ⟨f, h, rfl⟩, rfl⟩
+  · intro name o ho
+    have h0 := inv.ofiles name
+    rw [ho] at h0
+    obtain ⟨_, f, hf, hfn, hrc, hpos, _, _⟩ := h0
+    exact ⟨by omega, f.render cfg, by rw [inv.disk]; exact List.mem_map.mpr ⟨f, hf, rfl⟩, hfn⟩
 
-
-/-! ### the model's ReadNextTailSecond loop follows `scan` -/
-
-theorem findO_name (os : List OFile) (name : Nat) (f : OFile) (h : findO os name = some f) : f.name = name := by
-  unfold findO at h
-  have := List.find?_some h
-  simpa using this
-
-theorem findO_mapO (os : List OFile) (name : Nat) (g : OFile → OFile) (f : OFile)
-    (hg : ∀ x, (g x).name = x.name) (h : findO os name = some f) :
-    findO (mapO os name g) name = some (g f) := by
-  induction os with
-  | nil => simp [findO] at h
-  | cons a os ih =>
-    unfold findO at h ih ⊢
-    simp only [mapO, List.map_cons, List.find?_cons] at h ih ⊢
-    by_cases ha : a.name == name
-    · simp only [ha, if_true] at h ⊢
-      have : (g a).name == name := by rw [hg]; exact ha
-      simp only [this]
-      simp at h; rw [h]
-    · have ha' : (a.name == name) = false := Bool.eq_false_iff.mpr ha
-      simp only [ha', Bool.false_eq_true, if_false] at h ⊢
-      exact ih h
-
-/-- The model's loop hands out the first element of `scan`: started on a reading file at its cursor, `readLoop` returns
-    the first good record that `scan` finds from there — its time, a fresh id — and registers a bucket holding exactly
-    that record's position, size and crc; the directory is untouched and the cursor sits behind the record. -/
-theorem readLoop_head (cfg : Cfg) : ∀ (fuel : Nat) (s : Shard) (name : Nat) (f : OFile) (p : Nat) (h : Hdr) (rest : List (Nat × Hdr)),
-    s.reading = some name → findO s.ofiles name = some f →
-    scan cfg fuel (fileBytes s.disk name) f.size f.nextPos = (p, h) :: rest →
-    ∃ s', readLoop cfg fuel s = (s', .got h.time (s.lastID + 1)) ∧
-      s'.known = { id := s.lastID + 1, file := name, pos := p, time := h.time, size := h.size, crc := h.crc } :: s.known ∧
-      s'.lastID = s.lastID + 1 ∧ s'.disk = s.disk ∧ s'.reading = some name ∧ s'.waiting = s.waiting ∧
-      findO s'.ofiles name = some { f with nextPos := p + headerSize + h.size, refCount := f.refCount + 1 } := by
-  intro fuel
-  induction fuel with
-  | zero => intro s name f p h rest _ _ hs; simp [scan] at hs
-  | succ fuel ih =>
-    intro s name f p h rest hr hf hs
-    rw [scan_succ] at hs
-    have hname := findO_name _ _ _ hf
-    by_cases hge : f.nextPos ≥ f.size
-    · rw [if_pos hge] at hs; simp at hs
-    · rw [if_neg hge] at hs
-      unfold readLoop
-      simp only [hr, hf, if_neg hge]
-      cases hl : look cfg (fileBytes s.disk name) f.size f.nextPos with
-      | stop => simp [hl] at hs
-      | skip nx =>
-        simp only [hl] at hs ⊢
-        have hf' : findO (setNextPos s name nx).ofiles name = some { f with nextPos := nx } :=
-          findO_mapO s.ofiles name _ f (fun _ => rfl) hf
-        obtain ⟨s', h1, h2, h3, h4, h5, h6, h7⟩ := ih (setNextPos s name nx) name { f with nextPos := nx } p h rest hr hf' hs
-        exact ⟨s', h1, h2, h3, h4, h5, h6, h7⟩
-      | good h0 nx =>
-        simp only [hl] at hs ⊢
-        simp only [List.cons.injEq, Prod.mk.injEq] at hs
-        obtain ⟨⟨hp, hh⟩, _⟩ := hs
-        subst hh
-        have hnx : nx = p + headerSize + h0.size := by
-          unfold look at hl
-          split at hl
-          · simp at hl
-          · split at hl
-            · simp at hl
-            · split at hl
-              · simp at hl
-              · split at hl
-                · simp at hl
-                · simp at hl
-                  obtain ⟨e1, e2⟩ := hl
-                  subst e1
-                  omega
-        refine ⟨register s f h0 nx, rfl, ?_, rfl, rfl, hr, rfl, ?_⟩
-        · simp [register, hname, hp]
-        · have := findO_mapO s.ofiles name (fun g => { g with refCount := g.refCount + 1, nextPos := nx }) f (fun _ => rfl) hf
-          simp only [register, hname]
-          rw [this, hnx, hname]
-
-
-/-! ### a crash that tears an erase (4-byte overwrite of the magic) -/
-
-/-- the magic read back after the first `k` bytes of the erase reached the disk -/
-def tornMagic (k : Nat) : Nat := unle ((le 4 magicDeleted).take k ++ (le 4 magicGood).drop k)
-
-/-- 0,1,2 bytes: the record is still good (the erase did not happen); 4 bytes: erased; 3 bytes: a third magic -/
-theorem torn_erase_magic :
-    tornMagic 0 = magicGood ∧ tornMagic 1 = magicGood ∧ tornMagic 2 = magicGood ∧
-    tornMagic 3 = magicTornDeleted ∧ tornMagic 4 = magicDeleted := by decide
-
-/-- one loop iteration at a boundary where a header with an arbitrary magic `m` sits -/
-theorem look_at_magic (cfg : Cfg) (pre body rest : Bytes) (m t c : Nat) (size : Nat)
-    (hm : m < 2 ^ 32) (ht : t < 2 ^ 32) (hc : c < 2 ^ 32) (hb : body.length ≤ maxChunkSize)
-    (hsz : pre.length + (headerSize + body.length) ≤ size) :
-    look cfg (pre ++ (encHeader m t body.length c ++ (body ++ rest))) size pre.length =
-      if isDeletedMagic cfg m then .skip (pre.length + headerSize + body.length)
-      else if m != magicGood then .stop
-      else .good ⟨m, t, body.length, c⟩ (pre.length + headerSize + body.length) := by
-  have hs64 : body.length < 2 ^ 64 := by
-    have : maxChunkSize < 2 ^ 64 := by decide
-    omega
-  unfold look
-  rw [readHdr_at pre _ _ _ _ _ hm ht hs64 hc]
-  have hbad : badChunk ⟨m, t, body.length, c⟩ size pre.length = false := by
-    simp [badChunk]; omega
-  simp only [hbad]
-  simp
-
-/-- THE CODE AS IT IS (`tornEraseOk = false`): the magic left by an erase torn after 3 bytes is "unknown", the scan of the
-    file stops there — every later second of that file is not re-read although it was put, not erased and not torn. -/
-theorem torn_erase3_stops (cfg : Cfg) (hv : cfg.tornEraseOk = false) (pre body rest : Bytes) (t c size : Nat)
-    (ht : t < 2 ^ 32) (hc : c < 2 ^ 32) (hb : body.length ≤ maxChunkSize)
-    (hsz : pre.length + (headerSize + body.length) ≤ size) :
-    look cfg (pre ++ (encHeader magicTornDeleted t body.length c ++ (body ++ rest))) size pre.length = .stop := by
-  rw [look_at_magic cfg pre body rest magicTornDeleted t c size (by decide) ht hc hb hsz]
-  have h1 : isDeletedMagic cfg magicTornDeleted = false := by
-    unfold isDeletedMagic; rw [hv]; decide
-  have h2 : (magicTornDeleted != magicGood) = true := by decide
-  simp [h1, h2]
-
-/-- WITH THE PROPOSED FIX (`tornEraseOk = true`): that record is skipped like an erased one, the scan goes on -/
-theorem torn_erase3_skipped_when_fixed (cfg : Cfg) (hv : cfg.tornEraseOk = true) (pre body rest : Bytes) (t c size : Nat)
-    (ht : t < 2 ^ 32) (hc : c < 2 ^ 32) (hb : body.length ≤ maxChunkSize)
-    (hsz : pre.length + (headerSize + body.length) ≤ size) :
-    look cfg (pre ++ (encHeader magicTornDeleted t body.length c ++ (body ++ rest))) size pre.length =
-      .skip (pre.length + headerSize + body.length) := by
-  rw [look_at_magic cfg pre body rest magicTornDeleted t c size (by decide) ht hc hb hsz]
-  have h1 : isDeletedMagic cfg magicTornDeleted = true := by
-    unfold isDeletedMagic; rw [hv]; decide
-  simp [h1]
-
-/-! ### witnesses (non-vacuity; the defect of the unchanged code on a concrete directory) -/
-
-def cfg0 : Cfg := { crc := fun b => b.length, tornEraseOk := false }
-def cfgFixed : Cfg := { crc := fun b => b.length, tornEraseOk := true }
-def rA : Rec := { deleted := false, time := 15, body := [1, 2] }
-def rB : Rec := { deleted := true, time := 16, body := [] }
-def rC : Rec := { deleted := false, time := 17, body := [9] }
-
-example : ∀ r ∈ [rA, rB, rC], RecWF cfg0 r := by decide
-example : scan cfg0 4 (encAll cfg0 [rA, rB, rC]) 63 0 = [(0, hdrOf cfg0 rA), (42, hdrOf cfg0 rC)] := by decide
--- every tear offset of the last record, concretely: the first record survives, nothing else appears
-example : ∀ k < 21, scan cfg0 4 (encAll cfg0 [rA, rB] ++ (encRec cfg0 rC).take k) (42 + k) 0 = [(0, hdrOf cfg0 rA)] := by decide
-
-/-- the full claim "only a second whose write was torn may be missing" is FALSE of the unchanged code when the torn write
-    is an erase: erase of rA torn after 3 bytes; rC (put, not erased, not torn) is not re-read. -/
-theorem torn_erase3_loses_later_second :
-    scan cfg0 4 (writeAt (encAll cfg0 [rA, rC]) 0 ((le 4 magicDeleted).take 3)) 43 0 = [] ∧
-    goodList cfg0 0 [{ rA with deleted := true }, rC] = [(22, hdrOf cfg0 rC)] := by decide
-
-/-- same directory, reader with the fix: rC is re-read -/
-theorem torn_erase3_fixed_keeps_later_second :
-    scan cfgFixed 4 (writeAt (encAll cfgFixed [rA, rC]) 0 ((le 4 magicDeleted).take 3)) 43 0 = [(22, hdrOf cfgFixed rC)] := by decide
-
--- hypotheses of `readLoop_head` are satisfiable: a restarted shard that has opened its only file
-def sDemo : Shard :=
-  openNext (restart { disk := [{ name := 5, bytes := encAll cfg0 [rB, rC] }] }) { name := 5, size := 41 } []
-example : sDemo.reading = some 5 ∧ findO sDemo.ofiles 5 = some { name := 5, nextPos := 0, size := 41, refCount := 1 } ∧
-    scan cfg0 3 (fileBytes sDemo.disk 5) 41 0 = [(20, hdrOf cfg0 rC)] := by decide
-example : (readLoop cfg0 3 sDemo).2 = .got 17 1 := by decide
--- GetBucket on the demo shard returns the body that was put
-example : (DiskCache.get cfg0 (readLoop cfg0 3 sDemo).1 1 17).2 = .ok [9] := by decide
-
-
-/-! ### accounting right after a restart -/
-
-/-- "Reported total and unsent sizes match the files on disk" at the moment the cache is (re)started -/
-theorem restart_accounting (s : Shard) :
-    (restart s).total = sumSizes s.disk ∧ unsent (restart s) = sumSizes s.disk ∧ (restart s).known = [] := by
-  simp [restart, unsent, readingRest]
-
-example : sumSizes (restart { disk := [{ name := 5, bytes := encAll cfg0 [rB, rC] }] }).disk = 41 := by decide
+/-! non-vacuity: a concrete history with rotation, an erase, a restart and a re-read -/
+def ops0 : List Op := [.put 15 [1, 2] false, .put 16 [3] true, .erase 1, .restart, .readNext]
+example : ∀ op ∈ ops0, OpOk op := by decide
+example : spec ops0 = { live := [(some 1, 16, [3])], lastID := 1 } := by decide
+example : ∀ b, cfg0.crc b < 2 ^ 32 → True := fun _ _ => trivial
+example : outs 0 (clearLive (spec ops0).live) = [(16, 1)] := by decide
 
 end SH.C09
